@@ -129,17 +129,41 @@ def search(ctx, budget):
         elif r[0] == 'ok':
             ctx.count('provisions_nontrivial', r[2])
             if r[2] >= 1: ctx.nontrivial(j)
+    for w in WITNESSES:
+        ctx.evaluations += 1
+        if not _witness(w):
+            ctx.failures.append(({'stage': 'fragment', 'root': w[0], 'prefix': '', 'text': w[1], 'fragment': w[2], 'fragment_prefix': w[3], 'witness': True},
+                                 'provision parsed alone differs from its subtree in the document'))
     ctx.sample({'seed': jobs[0][0], 'root': jobs[0][1], 'text': '\n'.join(gen_case(__import__('random').Random(jobs[0][0]))[0])[:500]})
 
 def probe_disagreement(ctx, stage, case):
     pass
 
-CLASSIFIERS = {}
+WITNESSES = [('act', 'SEC 1 - a\u3000\nSEC 2 - b\n', 'SEC 1 - a\u3000\n', '')]      # known finding F22
+
+def _witness(args):
+    root, text, frag, pfx = args
+    from lxml import etree
+    doc = impl.parser('').parse_to_xml(text, root)
+    alone = impl.parser(pfx).parse_to_xml(frag, 'hier_element')
+    for el in doc.iter(alone.tag):
+        if el.get('eId') == alone.get('eId'):
+            return etree.tostring(alone) == etree.tostring(el, with_tail=False)
+    return False
+
+def _edge_ws(case, desc):
+    """the fragment begins or ends, layout aside, with whitespace that is not an ASCII space"""
+    g = case.get('fragment', '').strip(' \n\t')
+    return case.get('stage') == 'fragment' and g != g.strip()
+
+CLASSIFIERS = {'edge_unicode_whitespace': _edge_ws}
 
 def replay(obj):
     case = obj.get('case') or (obj.get('disagreements') or [{}])[0].get('case')
     if not case:
         print('nothing to replay:', obj.get('broken_obligations')); return 1
+    if case.get('stage') == 'fragment' and case.get('witness'):
+        ok = _witness((case['root'], case['text'], case['fragment'], case['fragment_prefix'])); print('same:', ok); return 0 if ok else 1
     if case.get('stage') == 'fragment':
         r = _oracle((case['seed'], case['root'], case['prefix'])); print(r[:2]); return 1 if r[0] == 'bad' else 0
     return 0 if stages.replay_stage(case) else 1
